@@ -194,6 +194,16 @@ REGEX_PAYLOADS = [b"\\Q", b"\\QAccount 1", b"\\Qa\\E\\Q", b"\\E", b"(", b")", b"
 def corpus():
     """hand-written messages (always first)"""
     out = []
+    # a client that keeps presenting a wrong passphrase for one account, at a growing pace (0, 0, 1.1, 2.1, 5.1, 5.1 s, then at
+    # once): whatever the daemon counts, limits or backs off on repeated failures, it keeps serving; the same for a wallet
+    # (first of all, while the account has not been used yet — and locked again explicitly, in case it has)
+    out.append(("/v1.AccountManager/Lock", "client-test01", msg(fld(1, LEN, b"Wallet 1/Account 3")), "repeated-bad-unlock"))
+    for q_, w_ in enumerate([0, 0, 1100, 2100, 5100, 5100, 50, 50]):
+        out.append(("wait:%d:/v1.AccountManager/Unlock" % w_, "client-test01", msg(fld(1, LEN, b"Wallet 1/Account 3"), fld(2, LEN, b"wrong %d" % q_)), "repeated-bad-unlock"))
+    out.append(("/v1.AccountManager/Unlock", "client-test01", msg(fld(1, LEN, b"Wallet 1/Account 3"), fld(2, LEN, b"pass")), "repeated-bad-unlock"))
+    for q_ in range(8):
+        out.append(("/v1.WalletManager/Unlock", "client-test01", msg(fld(1, LEN, b"Wallet 1"), fld(2, LEN, b"wrong %d" % q_)), "repeated-bad-unlock"))
+        out.append(("/v1.AccountManager/Unlock", "client-test01", msg(fld(1, LEN, b"Wallet 1/Account 2"), fld(2, LEN, b"wrong %d" % q_)), "repeated-bad-unlock"))
     # the allocation sized by a request field (peers.Suitable): participants = threshold = 2^32-1 on a distributed wallet
     out.append(("/v1.AccountManager/Generate", "client-test01", msg(fld(1, LEN, b"Wallet 3/Huge"), fld(2, LEN, b"pass"), fld(3, VARINT, (1 << 32) - 1), fld(4, VARINT, (1 << 32) - 1)), "generate-huge"))
     # single-participant / degenerate generation asked of the DISTRIBUTED wallet (and threshold/participant corner pairs)
